@@ -438,6 +438,12 @@ pub fn accepted(m: &[u32]) -> Option<(u32, u32)> {
 // ---------------------------------------------------------------------------------------------
 pub static mut PIN_DF: u32 = 99;
 pub static mut PIN_TC: u32 = 99;
+/// optional pin of the 3-bit subtype / category field (99 = not pinned)
+pub static mut PIN_ST: u32 = 99;
+pub fn pin_st(m: &[u32], st: u32) {
+    assume(bits(m, 38, 40) as u32 == st);
+    unsafe { PIN_ST = st };
+}
 
 pub fn pin_df(m: &[u32], df: u32) {
     assume(bits(m, 1, 5) as u32 == df);
@@ -455,6 +461,11 @@ pub fn stub_get_df(m: &[u32]) -> Option<u32> {
 pub fn stub_get_tc(m: &[u32]) -> (u32, u32) {
     let t = unsafe { PIN_TC };
     assert!(bits(m, 33, 37) as u32 == t, "pinned TC differs from the frame's TC bits");
+    let st = unsafe { PIN_ST };
+    if st != 99 {
+        assert!(m[9] & 7 == st, "pinned subtype differs from the frame's subtype bits");
+        return (t, st);
+    }
     (t, m[9] & 7)
 }
 
